@@ -1,4 +1,4 @@
-import Firefly.Proof.VmmPdtFull
+import Firefly.Proof.VmmRegion
 import Firefly.Proof.VmmBoot
 /-!
 # C04 — Page-table operations implement exactly the requested address translation
@@ -333,6 +333,35 @@ theorem region_pages (flags : W) (n : Nat) (page frame : W) (st : St) :
     (∀ size : W, roundWraps size = false → (roundUp size >>> pageShift).toNat = (size.toNat + 4095) / 4096) :=
   ⟨mapLoop_eq_seqMap flags n page frame st, run_length page frame n, fun i hi => run_get page frame n i hi,
     roundUp_pages⟩
+
+/-- **region_refines — the page loop of `MapRegion` / `IdentityMapRegion` at the level of address
+spaces** (with `region_pages`: that loop is `seqMap` over `n = ⌈size/4096⌉` consecutive pages and
+frames): it never faults, the address space stays well formed, and afterwards it is the old address
+space with the first `k` requests applied in order — `k` is all of them on success; on the
+allocator's (or the guard's) error the pages before the failing one are mapped and nothing else
+changed. -/
+theorem region_refines {R : W} (fl : W) (l : List (W × W)) (st : St) (own : Own) (g : Good st R own)
+    (hu : ∀ x ∈ l, UserVA (pageAddr x.1)) :
+    ∃ code st' own' k, seqMap fl l st = .ok (code, st') ∧ Good st' R own' ∧ SameRegs st st' ∧ k ≤ l.length ∧
+      (∀ F x, own F = some x → own' F = some x) ∧
+      (∀ F j, own' F = none → st'.mem.rd F j = st.mem.rd F j) ∧
+      (∀ va', UserVA va' → hwEntry st'.mem R va' = applyCalls (hwEntry st.mem R) (withFlags fl (l.take k)) va') ∧
+      (code = 0 → k = l.length) ∧ (code ≠ 0 → code = eAlloc ∨ code = eRWZero) :=
+  seqMap_full fl l st own g hu
+
+/-- **pdt_init_refines — `PageDirectoryTable.Init` of a fresh frame** (RAM, < 2^40, not a table, not in
+the allocator, not the active root; temporary mapping not refused): either the temporary mapping
+cannot get its tables (allocator error returned, CR3 unchanged), or `P` becomes a well-formed, empty
+address space (one all-zero table whose last entry maps itself, Present|RW) disjoint from the active
+one, whose entries are unchanged except that the temporary page ends unmapped. -/
+theorem pdt_init_refines {st : St} {A P : W} {ownA : Own} (g : Good st (A <<< 12) ownA) (hcr3 : st.cr3 = A <<< 12)
+    (hfa : FrameOK A) (hfo : FrameOK P) (hpb : st.mem.backed P.toNat = true) (hpn : ownA P.toNat = none)
+    (hpf : ∀ f ∈ st.free, f.toNat ≠ P.toNat) (hpa : P.toNat ≠ A.toNat) (htf : st.tmpFail = false)
+    (hz : (st.protect && P == st.zeroFrame) = false) :
+    ∃ code st', pdtInit st P = .ok (code, st') ∧
+      ((code = 0 ∧ ∃ ownA', InitPost st st' A P ownA ownA') ∨
+       (code = eAlloc ∧ st'.free = [] ∧ st'.cr3 = st.cr3)) :=
+  pdtInit_full g hcr3 hfa hfo hpb hpn hpf hpa htf hz
 
 /-- D13 (domain boundary): `SetFrame` does not mask the frame number: frame 2^40 spills into bit 52
 and the hardware frame field reads 0.  Frame numbers < 2^40 (`FrameOK`) are a hypothesis above. -/
